@@ -1,2 +1,2 @@
-import AbacusVerif.Model.C02Valid
-def main : IO Unit := AbacusVerif.driverMain AbacusVerif.Fields.handleValid
+import AbacusVerif.Model.C02Pass
+def main : IO Unit := AbacusVerif.driverMain AbacusVerif.Fields.handlePT
